@@ -57,6 +57,7 @@ LIST_API = {
     "__iter__": dict(params=[], kind="read"),
     "__len__": dict(params=[], kind="read"),
     "__reversed__": dict(params=[], kind="read"),
+    "__contains__": dict(params=["key"], kind="read"),       # inherited: collections.abc.Sequence.__contains__
     "__call__": dict(params=[], kind="read"),
     "__eq__": dict(params=["other"], kind="read"),
     "__lt__": dict(params=["other"], kind="read"),
@@ -67,7 +68,7 @@ LIST_API = {
     "__str__": dict(params=[], kind="read"),
 }
 # inherited mixins with loops / generator expressions are handled by props.mixins (invariants / bounded)
-LOOPING_MIXINS = {"list": ["index", "count", "__contains__"]}
+LOOPING_MIXINS = {"list": ["index", "count"]}
 
 
 def api_of(kind):
@@ -183,6 +184,8 @@ class Expect:
                 self._from(T["len"], [])
             elif meth == "__reversed__":
                 self._from(T["reversed"], [])
+            elif meth == "__contains__":
+                self._from(T["contains"], [a["key"]])
             elif meth == "__call__":
                 self.result = lambda v: v
             elif meth == "__eq__":
@@ -310,6 +313,9 @@ def run_instance(eng, prover, inst, props):
     exp = Expect(eng, s.cls, kind, alias, a)
     if inst.meth == "__getattr__":
         exp.raises = [("AttributeError", c) for (e, c) in exp.raises]
+    # loops executed inside the method (inherited stdlib mixins) report their invariant obligations here
+    eng.prover = prover
+    eng.goal_prefix = f"C03/{base}"
     outs = run_with_kwargs(eng, st, fi, [s.self_] + vals, kw)
     V0 = pre.sel("View", n)
     R0 = store(pre)
